@@ -125,6 +125,9 @@ func matchNumCallsZero(p *Prog) condMatch {
 func runC13(c *Check, a *Analysis) {
 	p := c.P
 	ruleConnCloseReleases(c, a, "R-CLOSE-RELEASES")
+	c.Rule("R-DRAIN-ALL", "the counted loops that empty a pool container (housekeeping, CloseIdleConnections, Close) visit every element: they start at element 0 and do not count upwards against a length they re-read while the body removes elements — connections left behind are open but tracked nowhere, and the next calls dial up to the limit next to them", 3)
+	ruleDrainLoops(c, a, "R-DRAIN-ALL")
+	ruleShrinkingBound(c, a, "R-DRAIN-ALL")
 	ruleLockBalance(c, a, "R-LOCK-BALANCE", "Transport.connsMu", "persistConn.mu")
 	sc := siteCounter{}
 	c.Rule("R-LOCK", "Transport.conns/idleConns/running, conns.Conns/cursor and connQueue.front/rear/length are only accessed with Transport.connsMu held", 30)
